@@ -977,3 +977,63 @@ def r_scope_extrusion(prog: Program, col: Collector, refs: Refs, cat: Catalogue,
                                   f"a subterm that occurs twice (v * v with v a lazy reduction) carries the same bound names in both places, and the merged scope "
                                   "captures the sibling's variable (sum_i b[i] * sum_i b[i] becomes sum_i b[i]*b[i])", f.loc(ret))
 
+
+# ---------------------------------------------------------------------- scalar / array sibling branches agree
+
+
+def r_number_tensor_siblings(prog: Program, col: Collector, refs: Refs, cat: Catalogue, rule: str):
+    """A Number is a 0-d Tensor.  Where one function handles both by separate branches of an isinstance chain on the same
+    variable (Slice.eager_subs), the data computed in the Number branch and in the Tensor branch must be the same formula."""
+    col.rule(rule, "Number and Tensor branches of one substitution rule compute the same formula", floor=1)
+    n_sites = 0
+    for tc in cat.term_classes.values():
+        for mname, m in tc.cls.methods.items():
+            if isinstance(m.node, ast.Lambda):
+                continue
+            for top in walk_no_nested(m.node):
+                if not isinstance(top, ast.If):
+                    continue
+                par = m.module.parent.get(top)
+                if isinstance(par, ast.If) and top in par.orelse:
+                    continue  # not the head of the chain
+                branches = {}
+                cur = top
+                while isinstance(cur, ast.If):
+                    t = cur.test
+                    kind, var = None, None
+                    if isinstance(t, ast.Call) and isinstance(t.func, ast.Name) and t.func.id == "isinstance" and len(t.args) == 2 and isinstance(t.args[0], ast.Name):
+                        r_ = refs.resolve(t.args[1]) if isinstance(t.args[1], (ast.Name, ast.Attribute)) else None
+                        if r_ == "funsor.terms.Number":
+                            kind, var = "Number", t.args[0].id
+                        elif r_ == "funsor.tensor.Tensor":
+                            kind, var = "Tensor", t.args[0].id
+                    elif isinstance(t, ast.Compare) and norm(t.comparators[0]) in ("'Tensor'", '"Tensor"') and isinstance(t.left, ast.Attribute) and t.left.attr == "__name__" \
+                            and isinstance(t.left.value, ast.Call) and norm(t.left.value.func) == "type" and isinstance(t.left.value.args[0], ast.Name):
+                        kind, var = "Tensor", t.left.value.args[0].id
+                    if kind:
+                        branches[kind] = (var, cur.body)
+                    cur = cur.orelse[0] if len(cur.orelse) == 1 and isinstance(cur.orelse[0], ast.If) else None
+                if set(branches) != {"Number", "Tensor"} or branches["Number"][0] != branches["Tensor"][0]:
+                    continue
+
+                def data_expr(body):
+                    rets = [x for b in body for x in ast.walk(b) if isinstance(x, ast.Return) and isinstance(x.value, ast.Call) and x.value.args]
+                    if len(rets) != 1:
+                        return None
+                    a0 = rets[0].value.args[0]
+                    if isinstance(a0, ast.Name):
+                        ds = [x for b in body for x in ast.walk(b) if isinstance(x, ast.Assign) and len(x.targets) == 1 and isinstance(x.targets[0], ast.Name) and x.targets[0].id == a0.id]
+                        return ds[-1].value if ds else None
+                    return a0
+
+                en, et = data_expr(branches["Number"][1]), data_expr(branches["Tensor"][1])
+                if en is None or et is None:
+                    continue
+                n_sites += 1
+                construct = f"{m.fq}::Number/Tensor branches"
+                col.check(ast.dump(en) == ast.dump(et), construct, f"both branches compute `{norm(en)}`",
+                          f"the Number branch computes `{norm(en)}` but the Tensor branch computes `{norm(et)}`: a 0-d tensor and a number substituted into the same term give different values",
+                          m.loc(top))
+    if not n_sites:
+        col.unresolved("funsor.terms::Number/Tensor sibling branches", "no function with separate Number and Tensor branches computing data found", "funsor/terms.py")
+
